@@ -189,10 +189,7 @@ fn run_diff(old: &TreeSpec, new: &TreeSpec) -> (Outcome, Vec<Hunk<Modification>>
                 FileDiff::Deleted(f) => ("deleted", &f.diff),
                 FileDiff::Modified(f) => ("modified", &f.diff),
                 FileDiff::Moved(f) => ("moved", &f.diff),
-                FileDiff::Copied(f) => {
-                    excluded = Some("excluded-copied-file");
-                    ("copied", &f.diff)
-                }
+                FileDiff::Copied(f) => ("copied", &f.diff),
             };
             tags.push(format!("file-{kind}"));
             match content {
@@ -235,17 +232,31 @@ fn run_diff(old: &TreeSpec, new: &TreeSpec) -> (Outcome, Vec<Hunk<Modification>>
             // Outside the property's hypothesis (the encoder marks these unimplemented).
             return (finish(Outcome::new("checked").tag(why).trivial()), vec![]);
         }
-        // Files whose header carries no file mode in the text form (known finding
-        // `renamed-file-not-decodable`): checked apart from the others.
+        // Known findings, checked apart from the other files: a renamed file's header carries no file mode
+        // in the text form (`renamed-file-not-decodable`); a copied file's header is `todo!()` in the encoder
+        // (`copied-file-not-encodable`).
         let has_moved = diff.files().any(|f| matches!(f, FileDiff::Moved(_)));
+        let has_copied = diff.files().any(|f| matches!(f, FileDiff::Copied(_)));
         let mut o = Outcome::new("checked");
         o.nontrivial = diff.files().count() > 0;
         // Round trip of one text: Ok(()) or (class, message).
-        let round_trip = |what: &str, text: Result<Result<String, String>, String>, expect: &Summary, moved: bool| -> Result<(), (String, String)> {
+        let round_trip = |what: &str,
+                          text: Result<Result<String, String>, String>,
+                          expect: &Summary,
+                          moved: bool,
+                          copied: bool|
+         -> Result<(), (String, String)> {
             let text = match text {
                 Ok(Ok(t)) => t,
                 Ok(Err(e)) => return Err(("diff-encode-error".into(), format!("{what}: encoding failed: {e}"))),
-                Err(msg) => return Err(("diff-encode-panic".into(), format!("{what}: encoding panicked: {msg}"))),
+                Err(msg) => {
+                    let class = if copied && msg.contains("not yet implemented") {
+                        "copied-file-not-encodable"
+                    } else {
+                        "diff-encode-panic"
+                    };
+                    return Err((class.into(), format!("{what}: encoding panicked: {msg}")));
+                }
             };
             let shown: String = text.chars().take(500).collect();
             let decoded = match catch(|| Diff::parse(&text)) {
@@ -287,26 +298,33 @@ fn run_diff(old: &TreeSpec, new: &TreeSpec) -> (Outcome, Vec<Hunk<Modification>>
             let first: String = first.chars().take(600).collect();
             Err((class.into(), format!("{what}: {first} text={shown:?}")))
         };
-        let whole = round_trip("whole diff", catch(|| diff.to_unified_string().map_err(|e| e.to_string())), &summary(&diff), has_moved);
+        let whole = round_trip(
+            "whole diff",
+            catch(|| diff.to_unified_string().map_err(|e| e.to_string())),
+            &summary(&diff),
+            has_moved,
+            has_copied,
+        );
         match whole {
             Ok(()) => o = o.tag("whole-diff-round-trips"),
-            Err((class, msg)) if class == "renamed-file-not-decodable" => {
+            Err((class, msg)) if class == "renamed-file-not-decodable" || class == "copied-file-not-encodable" => {
                 o = o.violation(class, msg);
-                // The other files are still held to the property, one by one.
+                // Every file is still held to the property, one by one; renamed and copied files fall
+                // into their known classes again, anything else is reported as usual.
                 let all = summary(&diff);
                 for (f, s) in diff.files().zip(all.iter()) {
-                    if matches!(f, FileDiff::Moved(_)) {
-                        continue;
-                    }
                     let expect = vec![s.clone()];
                     let r = round_trip(
                         &format!("file {:?}", s.1),
                         catch(|| f.to_unified_string().map_err(|e| e.to_string())),
                         &expect,
-                        false,
+                        matches!(f, FileDiff::Moved(_)),
+                        matches!(f, FileDiff::Copied(_)),
                     );
-                    if let Err((class, msg)) = r {
-                        o = o.violation(class, msg);
+                    match r {
+                        Ok(()) => o = o.tag("single-file-round-trips"),
+                        Err((class, _)) if class == "renamed-file-not-decodable" || class == "copied-file-not-encodable" => {}
+                        Err((class, msg)) => o = o.violation(class, msg),
                     }
                 }
             }
@@ -774,7 +792,7 @@ fn main() {
     };
     if !is_replay {
         let mut rng = ctx.rng();
-        for _ in 0..ctx.size(1_500, 40_000) {
+        for _ in 0..ctx.size(1_500, 15_000) {
             let input = gen_diff(&mut rng);
             let (o, derived) = run_case_full(&input);
             ctx.record(&input, o);
@@ -785,7 +803,7 @@ fn main() {
                 ctx.record(&d, o);
             }
         }
-        for _ in 0..ctx.size(6_000, 150_000) {
+        for _ in 0..ctx.size(6_000, 120_000) {
             let input = match rng.below(10) {
                 0..=2 => {
                     let t = gen_header_text(&mut rng).into_bytes();
